@@ -98,7 +98,7 @@ def run_one(rel, w, props):
         selftest._copy_repo(repo)
         (repo / rel).write_text(w["text"])
         env = dict(os.environ)
-        env.update(VERIF_REPO=str(repo), VERIF_OUT=str(tmp / "out"), VERIF_EVIDENCE_DIR=str(tmp / "ev"), VERIF_NO_SELFTEST="1")
+        env.update(VERIF_REPO=str(repo), VERIF_OUT=str(tmp / "out"), VERIF_EVIDENCE_DIR=str(tmp / "ev"), VERIF_NO_SELFTEST="1", VERIF_NO_DELEGATE=os.environ.get("VERIF_NO_DELEGATE", "1"))
         codes, rules = {}, []
         for pid in props:
             p = subprocess.run([sys.executable, str(core.VERIF / "check.py"), pid, "--tier", "quick"], capture_output=True, text=True, env=env, timeout=1800)
